@@ -335,7 +335,7 @@ pub static C17: OscProp = OscProp {
 
 pub static C18: OscProp = OscProp {
     id: "C18",
-    families: &[Family::Sem, Family::SemAsync, Family::SemAsync],
+    families: &[Family::Sem, Family::SemAsync, Family::SemAsync, Family::SemChain, Family::SemChain],
     judge: Judge::Both,
     nontrivial: |p, r| r.model_saw_blocked || uses(p, |o| matches!(o, Op::AcqDrop | Op::Close(_))),
     max_tasks: 4,
@@ -368,7 +368,24 @@ const COMMON_ASSUME: &[&str] = &[
 
 osc_spec!(spec_c02, C02, "cases = generated DSL programs over {Mutex,RwLock,atomics,Condvar,Barrier,Once,park/unpark,mpsc,BatchSemaphore,futures}; for each, ALL schedules are enumerated on real Shuttle by the harness' own enumerator and every outcome of the sequentially consistent reference model must be produced by some schedule; evaluations = Shuttle executions; non-trivial = the model has >=2 distinct outcomes (the schedule matters) and the tree was enumerated completely; distinct = distinct programs", COMMON_ASSUME);
 osc_spec!(spec_c03, C03, "cases = generated DSL programs biased to blocking shapes (lost notifications, lock cycles, closed channels, parked threads, pending futures, detached tasks); all schedules enumerated; every Shuttle termination (pass / deadlock with its exact task set / step bound) must be allowed by the model for the same observations and every model termination must be produced; non-trivial = model has both a deadlocking and a passing outcome, or a deadlock involving park/detach/pending future; distinct = distinct programs", COMMON_ASSUME);
-osc_spec!(spec_c04, C04, "cases = generated DSL programs over Mutex/RwLock (lock, try-variants, payload read-modify-write inside sections, re-entrant try_read) and atomics (load/store/swap/CAS/fetch_add litmus shapes); all schedules enumerated; outcome sets must equal the model's in both directions; non-trivial = >=2 tasks contend on one lock or atomic; distinct = distinct programs", COMMON_ASSUME);
+pub fn spec_c04() -> PropSpec {
+    PropSpec {
+        id: "C04",
+        chunks: |t| t.pick(16, 64),
+        run_chunk: |ctx| {
+            let mut r = run_chunk(&C04, ctx);
+            crate::props::c04b::run_chunk_part(ctx, &mut r);
+            r
+        },
+        replay: |case, tier| match crate::props::c04b::replay(case) {
+            Some(v) => v,
+            None => replay(&C04, case, tier),
+        },
+        rule: C04_RULE,
+        assumptions: COMMON_ASSUME,
+    }
+}
+const C04_RULE: &str = concat!( "cases = generated DSL programs over Mutex/RwLock (lock, try-variants, payload read-modify-write inside sections, re-entrant try_read) and atomics (load/store/swap/CAS/fetch_add litmus shapes); all schedules enumerated; outcome sets must equal the model's in both directions; non-trivial = >=2 tasks contend on one lock or atomic; distinct = distinct programs", "; plus single-task operation histories (1-40 ops: load/store/swap/compare_exchange(_weak)/fetch_add/sub/and/or/xor/nand/max/min/fetch_update, all valid orderings, boundary operands) on every atomic integer type, bool and ptr, applied in lock-step to shuttle's and std's atomic: results and values must be identical (non-trivial = history with a CAS/fetch_update or a wrapping add/sub)");
 osc_spec!(spec_c05, C05, "cases = generated DSL programs over Condvar (wait, wait_while, notify_one/all), Barrier (sizes 1-3, reused), Once (racing call_once with a yielding initializer, is_completed), park/unpark; all schedules enumerated; outcome sets compared with the model in both directions (lost wake-up = deadlock the model forbids; phantom wake-up = log the model forbids; missing = model outcome not produced); non-trivial = some task blocks in some interleaving and the program contains a releasing op; distinct = distinct programs", COMMON_ASSUME);
 osc_spec!(spec_c06, C06, "cases = generated DSL programs over std mpsc (unbounded, rendezvous, bounded 1/2; send, try_send, recv, try_recv, explicit endpoint drops, 1-3 senders); all schedules enumerated; outcome sets compared with the model in both directions; non-trivial = some task blocks or an endpoint is dropped explicitly; distinct = distinct programs", COMMON_ASSUME);
 osc_spec!(spec_c17, C17, "cases = generated async DSL programs: 1-3 spawned futures + a thread body; await of a hand-written Event future (registers its waker, then reads a flag), set / wake-without-set from any task, yield_now, JoinHandle await / abort / drop (detach) / is_finished at any point, sync primitives inside futures; all schedules enumerated; outcome sets compared with the executor contract in the model in both directions (lost wake-up = deadlock the model forbids; Cancelled iff an abort took effect at a poll boundary before completion); non-trivial = two tasks touch one Event or an abort is present; distinct = distinct programs", COMMON_ASSUME);
